@@ -122,7 +122,7 @@ func bReadU16(r *bytes.Reader, data *uint16) error {
 		bs []byte
 	)
 	bs = b[:]
-	_, err := r.Read(bs)
+	_, err := io.ReadFull(r, bs)
 	*data = binary.BigEndian.Uint16(bs)
 	return err
 }
@@ -134,7 +134,7 @@ func bReadU32(r *bytes.Reader, data *uint32) error {
 		bs []byte
 	)
 	bs = b[:]
-	_, err := r.Read(bs)
+	_, err := io.ReadFull(r, bs)
 	*data = binary.BigEndian.Uint32(bs)
 	return err
 }
@@ -146,7 +146,7 @@ func bReadU64(r *bytes.Reader, data *uint64) error {
 		bs []byte
 	)
 	bs = b[:]
-	_, err := r.Read(bs)
+	_, err := io.ReadFull(r, bs)
 	*data = binary.BigEndian.Uint64(bs)
 	return err
 }
